@@ -301,7 +301,7 @@ def merge_levels(ctx):
         return None
 
     eng.on_call = on_call
-    outs = eng.call_path(MLCLOS, eng.symbolic_args(b))
+    outs = eng.call_path(MLCLOS, eng.symbolic_args(b, names=["env", "entry"]))
     n = 0
     for st, rv in outs:
         n += 1
